@@ -264,6 +264,8 @@ class SymBytes:
         return SymBytes(self.cells[a:b])
 
     def startswith(self, prefix):
+        if isinstance(prefix, tuple):
+            return any(self.startswith(x) for x in prefix)
         p = SymBytes.of(prefix).cells
         if len(p) > len(self.cells):
             if self.has_blob():
@@ -280,6 +282,8 @@ class SymBytes:
         return True
 
     def endswith(self, suffix):
+        if isinstance(suffix, tuple):
+            return any(self.endswith(x) for x in suffix)
         s = SymBytes.of(suffix).cells
         if len(s) > len(self.cells):
             return False
